@@ -116,6 +116,17 @@ func (x *Exec) exitNormal(s *State, rs []Val) {
 	c := x.contract
 	s.comment("normal exit")
 	x.cover(s, x.entryKey+"#cover:exit")
+	// objects of types with a type invariant allocated here must satisfy it
+	for _, a := range s.tiAllocs {
+		for _, ti := range x.w.typeInvs[a.key] {
+			env := &Env{s: s, vars: map[string]SVal{ti.v: {t: a.ref, gt: ti.gt}}, heap: s.heap, ghost: s.ghost, alloc: s.alloc, pkg: ti.pkg}
+			t, err := env.evalBool(ti.cl.Expr, ti.cl.Src)
+			if err != nil {
+				x.unsup("%v (%s)", err, ti.cl.Where)
+			}
+			s.goal(x.entryKey+"#typeinv:"+ti.cl.Name(), "typeinv", ti.cl.Props(), t, ti.cl.Where, ti.cl.Src)
+		}
+	}
 	if c == nil {
 		return
 	}
@@ -146,6 +157,38 @@ func (x *Exec) exitNormal(s *State, rs []Val) {
 		s.goal(x.entryKey+"#post:"+name, "post", e.Props(), t, e.Where, e.Src)
 	}
 	x.frameGoals(s, c)
+	x.typeInvPreserved(s)
+}
+
+// typeInvPreserved: when a function writes a field that a type invariant
+// reads, every pre-existing object that satisfied the invariant still does.
+func (x *Exec) typeInvPreserved(s *State) {
+	w := x.w
+	var keys []string
+	for k := range w.typeInvs {
+		keys = append(keys, k)
+	}
+	sort.Strings(keys)
+	for _, k := range keys {
+		for _, ti := range w.typeInvs[k] {
+			x.counter++
+			pv := Term{fmt.Sprintf("p!ti%d", x.counter), "Int"}
+			s.noTypeInv = true
+			envN := &Env{s: s, vars: map[string]SVal{ti.v: {t: pv, gt: ti.gt}}, heap: s.heap, ghost: s.ghost, alloc: s.alloc, pkg: ti.pkg}
+			envO := &Env{s: s, vars: envN.vars, heap: s.oldHeap, ghost: s.oldGhost, alloc: s.oldAlloc, pkg: ti.pkg}
+			tn, err1 := envN.evalBool(ti.cl.Expr, ti.cl.Src)
+			to, err2 := envO.evalBool(ti.cl.Expr, ti.cl.Src)
+			s.noTypeInv = false
+			if err1 != nil || err2 != nil {
+				x.unsup("%v %v (%s)", err1, err2, ti.cl.Where)
+			}
+			if tn.S == to.S {
+				continue
+			}
+			t := Term{fmt.Sprintf("(forall ((%s Int)) (=> (and (< 0 %s) (<= %s %s) %s) %s))", pv.S, pv.S, pv.S, s.oldAlloc.S, to.S, tn.S), "Bool"}
+			s.goal(x.entryKey+"#typeinv-preserved:"+ti.cl.Name(), "typeinv", ti.cl.Props(), t, ti.cl.Where, "objects that satisfied the type invariant still do: "+ti.cl.Src)
+		}
+	}
 }
 
 func (x *Exec) exitPanic(s *State) {
